@@ -83,7 +83,7 @@ def h_canary(ctx, n):
 
 # ---- general fit: normal equations, and equal to the quadratic / linear fit with the polynomial bases
 @P.harness("general_fitting/polynomial-bases", cases=[dict(n=k, basis=b) for k in (3, 4) for b in ("x2,x,1", "x,1", "x")],
-           functions=[CF + ".general_fitting"], crosscheck=5)
+           functions=[CF + ".general_fitting"], crosscheck=5, branch_timeout_ms=250)
 def h_general(ctx, n, basis):
     xs, ys = data(ctx, n)
     cf = ctx.new(CF, list(xs), list(ys))
